@@ -3,7 +3,7 @@
    history is any set of calls over any duties, any environment outcomes and any schedule of their
    atomic steps: the three kinds of critical section of attestedMu and the returns of the data
    provider, accounts provider, signer and submitter). *)
-From Verif Require Import Lib.Base Model.C01_Attester Proofs.C01.
+From Verif Require Import Lib.Base Model.C01_Attester Model.C01_Ties Proofs.C01 Proofs.C01_Ties.
 
 (* FULL STATEMENT (what the property text says):
      forall spe rs sch, wf_runs rs -> NoDup (sign_list spe (g_trace (exec spe rs sch init)))
@@ -94,6 +94,28 @@ Theorem C01_failed_run_not_retried_partial :
 Proof. exact failed_run_not_retried. Qed.
 Print Assumptions C01_failed_run_not_retried_partial.
 
+(* Calls that arrive together.  When several calls of Attest wake up at the same instant (two
+   deliveries of a duty arriving together as the first calls of their epoch, a call starting while
+   another's submission returns, ...) the check enumerates every interleaving of the atomic steps of
+   the tied code segments ([outcomes], Model/C01_Ties.v: [ws] are the wake-ups as (instant, call), in any
+   order) and compares the implementation, driven through such an interleaving by the harness, with
+   that set.  Every member of the set is the outcome of a schedule of the model, so all theorems above
+   speak about it ... *)
+Theorem C01_tied_outcomes_are_histories :
+  forall (spe : N) (rs : list run) (ws : list (N * nat)) (st : state) (sch : list nat),
+    In (st, sch) (outcomes spe rs ws) -> st = exec spe rs sch init.
+Proof. exact outcomes_exec. Qed.
+Print Assumptions C01_tied_outcomes_are_histories.
+
+(* ... in particular at-most-once: however the tied calls interleave, no (validator, epoch) is handed to
+   the signer twice (same window condition as C01_at_most_once_partial). *)
+Theorem C01_at_most_once_tied_partial :
+  forall (spe : N) (rs : list run) (ws : list (N * nat)) (st : state) (sch : list nat),
+    wf_runs rs -> In (st, sch) (outcomes spe rs ws) -> window_ok spe rs sch init ->
+    NoDup (sign_list spe (g_trace st)).
+Proof. exact tied_at_most_once. Qed.
+Print Assumptions C01_at_most_once_tied_partial.
+
 (* Non-vacuity: three overlapping calls -- the same duty of epoch 3 delivered twice (validators 5
    and 6, listed in opposite orders) and a duty of epoch 4 re-using validator 5 -- under an
    interleaved schedule that satisfies window_ok: the two deliveries race for the marks, one gets
@@ -115,6 +137,25 @@ Proof.
   split; [|split; [apply window_okb_sound; vm_compute; reflexivity | split; vm_compute; reflexivity]].
   repeat constructor; intros l H; injection H as <-; repeat constructor; cbn; intuition discriminate.
 Qed.
+
+(* Non-vacuity: the same duty of epoch 3 (validators 5, 6) delivered twice at instant 0 as the first calls
+   of the epoch, all later instants distinct: the two start segments (create the set, mark 5, mark 6
+   each) have 20 interleavings; in every one of them each validator is signed for exactly once, and
+   both splits of the marks between the two calls occur. *)
+Definition tied_runs : list run := [ex_run 100 3 [5; 6] true; ex_run 100 3 [5; 6] true].
+Definition tied_ws : list (N * nat) :=
+  [(0, 0%nat); (16, 0%nat); (32, 0%nat); (48, 0%nat); (64, 0%nat);
+   (0, 1%nat); (17, 1%nat); (33, 1%nat); (49, 1%nat); (65, 1%nat)].
+
+Example C01_tied_example :
+  (length (outcomes 32 tied_runs tied_ws) = 20%nat) /\
+  (forallb (fun o => list_eqb (prod_eqb N.eqb N.eqb)
+                       (sort_by fst (sign_list 32 (g_trace (fst o)))) [(5, 3); (6, 3)])
+           (outcomes 32 tied_runs tied_ws) = true) /\
+  (existsb (fun o => list_eqb N.eqb (t_claimed (g_thr (fst o) 0)) [5] &&
+                     list_eqb N.eqb (t_claimed (g_thr (fst o) 1)) [6])
+           (outcomes 32 tied_runs tied_ws) = true).
+Proof. vm_compute. repeat split. Qed.
 
 (* Non-vacuity of C01_invalid_refused: data of the right slot whose target is one epoch behind. *)
 Example C01_refused_example :
